@@ -102,3 +102,55 @@ def register(claim):
           K + "timestamp granularity, numba's own cache index handling and concurrent importers are outside the model; glob order fixed in the harness.",
           "Lean 4 invariants by induction over operation histories with crash points; real cache_auto_clear on a scratch layout as correspondence; "
           "end-to-end interpreter scenarios as oracle", "DESIGN.md §6 C17")
+    claim("C01", "proof",
+          "readTObjArray_encode / readEntries_encode: for every element codec that reads exactly its own encoding, every list of objects per event "
+          "(incl. empty events), every header variant (new-class tag with name vs class reference, any byte count with the mask bit, referenced bit) the "
+          "reader returns the objects in order and stops right after them, entry by entry; processDigi_fields. Model tied three-way on synthetic streams "
+          "(Lean / native working-tree build / installed extension with stock readers), by framing every real fixture basket, and member by member "
+          "against uproot's own deserialisation obtained without pybes3.",
+          K + NAT + "stock uproot-custom element readers enter as a contract (read exactly their own encoding); decompression/basket I/O and awkward record "
+          "construction are outside the model; the independent decoder cannot read multimap, TRecExtTrack and the streamer-less CGEM cluster class (listed in the evidence).",
+          "Lean 4 round-trip theorems on a hand-written byte-level parser model; three-way synthetic correspondence; framing-mode model on real baskets; "
+          "independent-decoder oracle (translation-validation strength for member values on real files)", "DESIGN.md §6 C01")
+    claim("C02", "proof",
+          "finalArray_eq_slice: for every basket layout (empty baskets anywhere) and every non-empty interval the model of AsCustom.final_array returns the "
+          "slice of the full read; partition invariance; chunks of any size concatenate to the whole; per-basket reader outputs re-based by concatenation "
+          "represent the concatenated events; per-event post-processing commutes with trimming. Real final_array/basket_array driven with index-valued and "
+          "re-partitioned real fixture baskets in every delivery order; public API (entry ranges, iterate, concatenate, subsets).",
+          K + "uproot's entry-range to basket selection, ak.concatenate and decompression are third-party (exercised, not modelled); fixtures have one basket per "
+          "branch, so multi-basket behaviour on real bytes comes from re-partitioning the payload.",
+          "Lean 4 list-algebra theorems on a model of final_array; correspondence against the real method; exhaustive partition x interval testing on fixtures (thorough)",
+          "DESIGN.md §6 C02")
+    claim("C07", "proof",
+          "rebuild (levels t) (flat t) = t for every uniform-depth layout (any depth, empty lists); array-mode pivot change = per-track single-helix result in the "
+          "input's nesting and order (hence independent of the other tracks and of the nesting); ufunc attributes act per track; permutation equivariance. "
+          "Real helix_awk operations compared per track with helix_obj over generated layouts (depth 1-4, empty events, sliced/indexed views, records), "
+          "pivot forms, error matrices, repeated calls (inputs not modified) and per-track isclose verdicts.",
+          K + "awkward's own layout transformations are third-party; masked/union layouts are not generated; float results at 1e-9 relative.",
+          "Lean 4 theorems on nested arrays (dependent depth) + single-track model; Lean driver vs _extract_index/flatten; per-track oracle", "DESIGN.md §6 C07")
+    claim("C09", "proof",
+          "Every MDC accessor returns the published row (kernel reads the loader global; loader globals equal the npz columns chunk by chunk; same for all EMC "
+          "columns incl. corner points); wire ends differ in z; stereo sign = sign of the exact cross product of the end points (doubles decoded exactly), "
+          "flag = (sign != 0), uniform per layer and equal to the per-layer table; superlayer-by-layer = by-wire; position on the line through the end "
+          "points for every z (reals); private copies for every get/write/lookup history. Centroid statement decided by exhaustive exact-rational evaluation "
+          "(test, not theorem).",
+          K + TR + "centroids of barrel crystals: exhaustive exact test over the complete table in the harness (kernel evaluation measured > 15 min); float evaluation of the "
+          "line formula compared at 1e-9.",
+          "Lean 4 kernel evaluation over complete tables with exact IEEE decoding; real-analysis lemma; history model by induction; differential + exact-arithmetic oracle",
+          "DESIGN.md §6 C09")
+    claim("C14", "other",
+          "Partial by design: Lean theorems for pybes3's own assembly laws (element-wise kernels preserve nesting and act on the leaves at every depth; the "
+          "flat option commutes with the kernels; records are tuples of field kernels). The dispatch half - numba per-dtype kernels and awkward's ufunc "
+          "protocol, which is most of what the property quantifies over - is explored: every public function x integer dtypes x container kinds (scalars, "
+          "0-d/n-d arrays, awkward flat/jagged/regular/depth-3/empty/sliced/indexed/masked/record field) x option combinations against a leaf-by-leaf reference.",
+          K + "numba type dispatch and awkward ufunc protocol are third-party and unmodelled; unknown-type (non-integer) empty arrays are not inputs of the property.",
+          "Lean 4 theorems for the assembly laws + structured per-dtype / per-layout exploration for the dispatch", "DESIGN.md §6 C14, §8")
+    claim("C18", "other",
+          "Partial by design: Lean theorem that the lazily announced type equals the eager type for digi collections (naturality of the shared post-"
+          "processing w.r.t. the content-to-type map, for every field list incl. clashes) and that the matrix factory's form mirrors its content. "
+          "The dask/uproot machinery is explored: every fixture branch that supports lazy reading x steps_per_file x projections, comparing announced, "
+          "computed and eager types and all values.",
+          K + "dask graph construction and uproot's positional form-to-buffer mapping are third-party and unmodelled; branches without a form (streamer-less "
+          "CGEM clusters) do not support lazy reading.",
+          "Lean 4 naturality theorem on the form/content model + structured exploration of the lazy path", "DESIGN.md §6 C18, §8")
+
